@@ -758,7 +758,9 @@ func oneList(r *ev.Run, c *ev.Case, n, pat, realPos int, realOK bool, variant in
 
 // ---- getrandom provenance under strace (thorough) ------------------------------
 
-var grRE = regexp.MustCompile(`getrandom\("((?:\\x[0-9a-f]{2})+)"`)
+// a getrandom(2) result in strace's output: on one line, or — when another thread's system call was
+// printed in between — on the "<... getrandom resumed>" line that completes an "<unfinished ...>" one
+var grRE = regexp.MustCompile(`(?:getrandom\(|getrandom resumed>)"((?:\\x[0-9a-f]{2})+)"`)
 
 func provenance(r *ev.Run) {
 	c := r.CaseAlways("strace", 0)
@@ -770,7 +772,7 @@ func provenance(r *ev.Run) {
 	defer os.RemoveAll(dir)
 	out := filepath.Join(dir, "challenges")
 	trace := filepath.Join(dir, "trace")
-	cmd := exec.Command("strace", "-f", "-e", "trace=getrandom", "-xx", "-s", "128", "-o", trace, os.Args[0], "-tier", "quick", "-seed", fmt.Sprint(r.Seed), "-no-evidence")
+	cmd := exec.Command("strace", "-f", "-e", "trace=getrandom", "-xx", "-s", "4096", "-o", trace, os.Args[0], "-tier", "quick", "-seed", fmt.Sprint(r.Seed), "-no-evidence")
 	cmd.Env = append(os.Environ(), "VERIF_C01_DUMP_CHALLENGES="+out, "VERIF_C01_RUNS=50")
 	if err := cmd.Run(); err != nil {
 		r.Count("strace provenance: child failed (sub-check inconclusive)", 1)
@@ -801,6 +803,12 @@ func provenance(r *ev.Run) {
 		}
 	}
 	r.Count("strace provenance: challenges traced to a getrandom buffer", len(lines)-miss)
+	// every traced call must have been understood before a missing challenge means anything
+	calls := strings.Count(string(tb), "getrandom(") + strings.Count(string(tb), "getrandom resumed>") - strings.Count(string(tb), "getrandom( <unfinished") - strings.Count(string(tb), "getrandom(<unfinished")
+	if miss > 0 && len(grRE.FindAllStringIndex(string(tb), -1)) < calls {
+		r.Count("strace provenance: trace not fully parsed (sub-check inconclusive)", 1)
+		return
+	}
 	if miss > 0 {
 		r.Violation(c, "challenge-not-from-getrandom", fmt.Sprintf("%d of %d challenges do not appear in any getrandom(2) result of the process", miss, len(lines)), nil)
 	}
